@@ -5,8 +5,8 @@ package client
 import (
 	"github.com/aws/aws-sdk-go/aws"
 	"github.com/aws/aws-sdk-go/service/dynamodb"
-	"github.com/truora/minidyn/interpreter"
 	"github.com/truora/minidyn/internal/nd"
+	"github.com/truora/minidyn/interpreter"
 )
 
 // VerifC11LocksV1: the SDK v1 twin of VerifC11Locks.
@@ -72,7 +72,7 @@ func VerifC11AtomicV1() {
 	nd.Assert(err == nil, "setup-put")
 	nd.Track(c)
 	tbl := aws.String(vTbl)
-	switch nd.Choice("pair", 3) {
+	switch nd.Choice("pair", 9) {
 	case 0:
 		add := func() {
 			c.UpdateItem(&dynamodb.UpdateItemInput{TableName: tbl, Key: vItem{"p": vS("k")}, UpdateExpression: aws.String("ADD n :one"), ExpressionAttributeValues: vItem{":one": {N: aws.String("1")}}})
@@ -93,6 +93,63 @@ func VerifC11AtomicV1() {
 		var e1, e2 error
 		nd.Par(func() { e1 = AddTable(c, "fresh", "p", "") }, func() { e2 = AddTable(c, "fresh", "p", "") })
 		nd.Assert((e1 == nil) != (e2 == nil), "C11v1-exactly-one-create-wins")
+	case 3: // put racing with delete of the same key
+		nd.Par(func() {
+			c.PutItem(&dynamodb.PutItemInput{TableName: tbl, Item: vItem{"p": vS("k"), "n": {N: aws.String("5")}}})
+		},
+			func() { c.DeleteItem(&dynamodb.DeleteItemInput{TableName: tbl, Key: vItem{"p": vS("k")}}) })
+		out, gerr := c.GetItem(&dynamodb.GetItemInput{TableName: tbl, Key: vItem{"p": vS("k")}})
+		nd.Assert(gerr == nil && (len(out.Item) == 0 || (out.Item["n"] != nil && out.Item["n"].N != nil && *out.Item["n"].N == "5")), "C11v1-put-delete-serializable")
+	case 4: // clear racing with put
+		nd.Par(func() { ClearTable(c, vTbl) }, func() { c.PutItem(&dynamodb.PutItemInput{TableName: tbl, Item: vItem{"p": vS("z")}}) })
+		out, serr := c.Scan(&dynamodb.ScanInput{TableName: tbl})
+		ok := serr == nil && len(out.Items) <= 1
+		if ok && len(out.Items) == 1 {
+			ok = out.Items[0]["p"] != nil && out.Items[0]["p"].S != nil && *out.Items[0]["p"].S == "z"
+		}
+		nd.Assert(ok, "C11v1-clear-vs-put-serializable")
+	case 5: // table deletion racing with a put
+		var e2 error
+		nd.Par(func() { c.DeleteTable(&dynamodb.DeleteTableInput{TableName: tbl}) }, func() {
+			_, e2 = c.PutItem(&dynamodb.PutItemInput{TableName: tbl, Item: vItem{"p": vS("z")}})
+		})
+		nd.Assert(e2 == nil || vErrCode(e2) == dynamodb.ErrCodeResourceNotFoundException, "C11v1-put-vs-delete-table-outcome")
+		_, derr := c.DescribeTable(&dynamodb.DescribeTableInput{TableName: tbl})
+		nd.Assert(vErrCode(derr) == dynamodb.ErrCodeResourceNotFoundException, "C11v1-table-gone-after-delete")
+	case 6: // failure activation racing with a put
+		var e2 error
+		nd.Par(func() { EmulateFailure(c, FailureConditionInternalServerError) }, func() {
+			_, e2 = c.PutItem(&dynamodb.PutItemInput{TableName: tbl, Item: vItem{"p": vS("z")}})
+		})
+		EmulateFailure(c, FailureConditionNone)
+		out, gerr := c.GetItem(&dynamodb.GetItemInput{TableName: tbl, Key: vItem{"p": vS("z")}})
+		nd.Assert(gerr == nil && (e2 == nil) == (len(out.Item) != 0), "C11v1-put-vs-failure-toggle-all-or-nothing")
+	case 7: // two conditional updates taking a lock attribute
+		var e1, e2 error
+		take := func(e *error, who string) func() {
+			return func() {
+				_, *e = c.UpdateItem(&dynamodb.UpdateItemInput{TableName: tbl, Key: vItem{"p": vS("k")}, UpdateExpression: aws.String("SET holder = :w"),
+					ConditionExpression: aws.String("attribute_not_exists(holder)"), ExpressionAttributeValues: vItem{":w": vS(who)}})
+			}
+		}
+		nd.Par(take(&e1, "one"), take(&e2, "two"))
+		nd.Assert((e1 == nil) != (e2 == nil), "C11v1-exactly-one-conditional-update-wins")
+	case 8: // update of an indexed attribute racing with an index scan
+		nd.Assert(AddIndex(c, vTbl, "idx", "g", "") == nil, "setup-addindex")
+		_, perr := c.PutItem(&dynamodb.PutItemInput{TableName: tbl, Item: vItem{"p": vS("i"), "g": vS("a")}})
+		nd.Assert(perr == nil, "setup-put-indexed")
+		var seen []vItem
+		var serr error
+		nd.Par(func() {
+			c.UpdateItem(&dynamodb.UpdateItemInput{TableName: tbl, Key: vItem{"p": vS("i")}, UpdateExpression: aws.String("SET g = :g"), ExpressionAttributeValues: vItem{":g": vS("b")}})
+		}, func() {
+			out, err := c.Scan(&dynamodb.ScanInput{TableName: tbl, IndexName: aws.String("idx")})
+			serr = err
+			if err == nil {
+				seen = out.Items
+			}
+		})
+		nd.Assert(serr == nil && len(seen) == 1, "C11v1-index-reader-sees-item-once")
 	}
 	nd.Reach("end")
 }
